@@ -17,6 +17,12 @@ def jobs(tier):
         J('h_orig_bam', L=L, pdu2=True)
         J('h_orig_bam', L=L, pdu2=False)
         J('h_resp_bam', L=L)
+    if q:
+        # sizes above 255 bytes (second size byte of RTS / BAM / EndOfMsgACK)
+        J('h_resp_cmdt', L=300, windows=4, limit=255, gap='1/100')
+        J('h_resp_cmdt', L=260, windows=255, limit=7, gap='1/100')
+        J('h_orig_bam', L=260, eps_sym=False)
+        J('h_resp_bam', L=300, gap='1/20')
     for L in ([15, 22] if q else [15, 22, 29, 36]):
         J('h_orig_cmdt', L=L, holds=[1])
         J('h_orig_cmdt', L=L, holds=[0, 1])
